@@ -107,8 +107,14 @@ class G:
                 tail = "[" + tail[1:-1] + "]"
         elif k < 7:
             tail = self.cmd()
-        elif k < 9:
+        elif k < 8:
             tail = "<%s>" % r.choice(["PATH", "DIRECTORY", "_", "ANY%d" % r.below(5)])
+        elif k < 9:
+            # the value is a nonterminal whose definition is itself a within-word expression (nested words get collapsed)
+            name = "WORD%d" % (len(self.defs) + len(self.cmd_defs))
+            inner = r.choice(["x(y | z)", "p%d{{{ echo q }}}" % r.below(9), "k<ANY%d>" % r.below(5), "(a | b)[,(a | b)]...", "v=(on | off)"])
+            self.defs[name] = inner
+            tail = "<%s>" % name
         else:
             a = r.choice(WORDS) + str(r.below(30))
             b = r.choice(WORDS) + str(30 + r.below(30))
